@@ -336,6 +336,21 @@ func c04r5(r *R) {
 		}
 	})
 	o2.Check(uses >= 2, "expected the record to flow into the h2 metadata and the h1 wrapper (%d uses found)", uses)
+	// … and a captured record is used: once GetClientHello succeeded no path leaves serveConn without handing the
+	// connection to the HTTP/2 server or to the HTTP/1.1 listener (a later "sanity check" that drops the connection would
+	// turn a valid capture into "no ClientHello reported")
+	isServe := func(i ssa.Instruction) bool { return isCall(i, nServeConn, "(*hack.ChannelListener).SendToChannel") }
+	nOK := 0
+	for _, b := range sc.Blocks {
+		if !hasGuard(c.guardStrs(b), "-"+errG) || len(b.Preds) != 1 || hasGuard(c.guardStrs(b.Preds[0]), "-"+errG) {
+			continue
+		}
+		nOK++
+		if p := c.escapeFromBlock(sc, b, isServe, isReturn); p != nil {
+			o2.Fail("after a successful capture the connection can be dropped without being served: %v", p)
+		}
+	}
+	o2.Check(nOK >= 1, "the success edge of GetClientHello was not found (rule needs re-anchoring)")
 	// error edge returns without serving
 	for _, b := range sc.Blocks {
 		if hasGuard(c.guardStrs(b), "+"+errG) {
